@@ -258,132 +258,33 @@ func (e *Engine) replayModel(res *FuncResult, o *Obl, repo, oracleDir, dir strin
 		out.Comment = "anonymous function"
 		return out
 	}
-	type param struct {
-		name string
-		typ  types.Type
-	}
-	var ps []param
-	for _, p := range fn.Params {
-		if !materialisable(p.Type()) {
-			out.Comment = fmt.Sprintf("parameter %s of type %s is not materialisable by the generic replayer", p.Name(), p.Type())
-			return out
-		}
-		ps = append(ps, param{p.Name(), p.Type()})
-	}
 	e.setFloatMode(vc.fc)
-	// phase 1: lengths
-	fr0params := map[string]Val{}
-	for _, p := range fn.Params {
-		// parameter values were bound in Verify as fresh "p.<name>" constants; recover via declared names
-		fr0params[p.Name()] = vc.paramVal(p.Name(), p.Type())
-	}
-	var lenTerms []string
-	for _, p := range ps {
-		if _, ok := p.typ.Underlying().(*types.Slice); ok {
-			lenTerms = append(lenTerms, fr0params[p.name].sLen().String())
-		}
-	}
-	var extra []string
-	for _, lt := range lenTerms {
-		extra = append(extra, "(<= "+lt+" 8)")
-	}
-	vals, ok := vc.getValues(o, extra, lenTerms, dir)
-	if !ok {
-		extra = nil
-		vals, ok = vc.getValues(o, nil, lenTerms, dir)
-		if !ok {
-			out.Comment = "model could not be re-obtained for value extraction"
-			return out
-		}
-	}
-	// phase 2: all scalar values and elements
-	var terms []string
-	type slot struct {
-		param string
-		idx   int // -1 scalar
-		typ   types.Type
-	}
-	var slots []slot
-	for _, p := range ps {
-		v := fr0params[p.name]
-		if sl, ok := p.typ.Underlying().(*types.Slice); ok {
-			r, ok2 := evalRat(vals[v.sLen().String()])
-			if !ok2 {
-				out.Comment = "cannot read slice length from the model"
-				return out
-			}
-			n := int(r.Num().Int64())
-			if n > 64 {
-				out.Comment = fmt.Sprintf("model slice too long (%d)", n)
-				return out
-			}
-			extra = append(extra, fmt.Sprintf("(= %s %d)", v.sLen(), n))
-			mem := smtName("M."+typeKey(sl.Elem())) + "!0"
-			if _, declared := vc.sorts[mem]; !declared {
-				ls := vc.e.layout(sl.Elem())
-				d := "(declare-const " + mem + " " + ArrSort("Int", ArrSort("Int", ls[0].Sort)) + ")"
-				if !containsStr(vc.extraDecls, d) {
-					vc.extraDecls = append(vc.extraDecls, d)
-				}
-			}
-			for i := 0; i < n; i++ {
-				terms = append(terms, fmt.Sprintf("(select (select %s %s) (+ %s %d))", mem, v.sBase(), v.sOff(), i))
-				slots = append(slots, slot{p.name, i, sl.Elem()})
-			}
-			if n == 0 {
-				slots = append(slots, slot{p.name, -2, sl.Elem()})
-			}
-		} else {
-			terms = append(terms, v.T().String())
-			slots = append(slots, slot{p.name, -1, p.typ})
-		}
-	}
-	vals2 := map[string]string{}
-	if len(terms) > 0 {
-		vals2, ok = vc.getValues(o, extra, terms, dir)
-		if !ok {
-			out.Comment = "model values could not be extracted"
-			return out
-		}
-	}
-	lits := map[string][]string{}
-	scal := map[string]string{}
-	ti := 0
-	for _, s := range slots {
-		if s.idx == -2 {
-			lits[s.param] = []string{}
-			continue
-		}
-		g, ok := smtToGo(vals2[terms[ti]], s.typ)
-		if !ok {
-			out.Comment = "cannot render model value " + vals2[terms[ti]]
-			return out
-		}
-		ti++
-		if s.idx == -1 {
-			scal[s.param] = g
-		} else {
-			lits[s.param] = append(lits[s.param], g)
-		}
-	}
-	// build the call
+	m := vc.newMater(o, dir)
 	pkgName := fn.Pkg.Pkg.Name()
-	qual := func(t types.Type) string {
-		return types.TypeString(t, func(p *types.Package) string {
-			if p == fn.Pkg.Pkg {
-				return ""
-			}
-			return p.Name()
-		})
-	}
 	var decl, args []string
-	for _, p := range ps {
-		if _, ok := p.typ.Underlying().(*types.Slice); ok {
-			decl = append(decl, fmt.Sprintf("\tvar %s %s = %s{%s}", "in_"+p.name, qual(p.typ), qual(p.typ), strings.Join(lits[p.name], ", ")))
-		} else {
-			decl = append(decl, fmt.Sprintf("\tvar %s %s = %s(%s)", "in_"+p.name, qual(p.typ), qual(p.typ), scal[p.name]))
+	for _, p := range fn.Params {
+		if !nameable(p.Type(), fn.Pkg.Pkg) {
+			if _, isIface := p.Type().Underlying().(*types.Interface); !isIface {
+				out.Comment = fmt.Sprintf("parameter %s has a type that cannot be named in a test (%s)", p.Name(), p.Type())
+				return out
+			}
 		}
-		args = append(args, "in_"+p.name)
+		pv := vc.paramVal(p.Name(), p.Type())
+		var leaves []string
+		for _, l := range pv.Leaves {
+			leaves = append(leaves, l.String())
+		}
+		expr := m.build(leaves, p.Type())
+		if m.err != "" {
+			out.Comment = "model not materialisable: " + m.err
+			return out
+		}
+		decl = append(decl, fmt.Sprintf("\tvar in_%s %s\n\tverifAssign(&in_%s, %s)", p.Name(), m.typeStr(p.Type()), p.Name(), expr))
+		args = append(args, "in_"+p.Name())
+	}
+	decl = append(append([]string{}, m.stmts...), decl...)
+	for _, n := range m.notes {
+		decl = append(decl, "\t// note: "+n)
 	}
 	call := ""
 	fname := fn.Name()
@@ -409,13 +310,28 @@ func (e *Engine) replayModel(res *FuncResult, o *Obl, repo, oracleDir, dir strin
 	}
 	hasOracle := oracleExists(oracleDir, oracleName)
 	ostmts, nchecked, skipped := e.goOracle(vc.fc, fn)
+	pstmts, npre, preSkipped := e.goRequires(vc.fc, fn)
 	var src strings.Builder
-	fmt.Fprintf(&src, "package %s\n\nimport (\n\t\"math\"\n\t\"reflect\"\n\t\"testing\"\n\t\"unsafe\"\n)\n\nvar _ = math.NaN\nvar _ = reflect.TypeOf\nvar _ unsafe.Pointer\n\n", pkgName)
+	fmt.Fprintf(&src, "package %s\n\n%s\nvar _ = math.NaN\nvar _ = reflect.TypeOf\nvar _ unsafe.Pointer\nvar _ = strings.Split\n\n", pkgName, m.importBlock("math", "reflect", "strings", "testing", "unsafe"))
 	fmt.Fprintf(&src, "// replay of obligation %s\nfunc TestVerifReplayModel(t *testing.T) {\n", o.Name)
-	src.WriteString("\tdefer func() {\n\t\tif r := recover(); r != nil {\n\t\t\tt.Fatalf(\"REPLAY-FAIL panic: %v\", r)\n\t\t}\n\t}()\n")
+	src.WriteString("\tdefer func() {\n\t\tif r := recover(); r != nil {\n\t\t\tif verifPanicInconclusive {\n\t\t\t\tt.Logf(\"REPLAY-INCONCLUSIVE panic on an input whose precondition could not be fully checked: %v\", r)\n\t\t\t\treturn\n\t\t\t}\n\t\t\tt.Fatalf(\"REPLAY-FAIL panic: %v\", r)\n\t\t}\n\t}()\n")
 	src.WriteString(strings.Join(decl, "\n") + "\n")
 	for _, a := range args {
 		fmt.Fprintf(&src, "\tvar old_%s interface{} = verifSnapshot(%s)\n\t_ = old_%s\n", strings.TrimPrefix(a, "in_"), a, strings.TrimPrefix(a, "in_"))
+	}
+	_ = pkgName
+	for _, a := range args {
+		fmt.Fprintf(&src, "\tverifRegister(%s)\n", a)
+	}
+	if npre > 0 {
+		src.WriteString("\t{\n\tvar fails []string\n" + pstmts)
+		src.WriteString("\tif len(fails) > 0 {\n\t\tt.Logf(\"REPLAY-INVALID the materialised input does not satisfy the precondition: %v\", fails)\n\t\treturn\n\t}\n\t}\n")
+	}
+	for _, sk := range preSkipped {
+		fmt.Fprintf(&src, "\t// precondition not executable (not checked on this input): %s\n", strings.ReplaceAll(sk, "\n", " "))
+	}
+	if len(preSkipped) > 0 {
+		src.WriteString("\tverifPanicInconclusive = true\n")
 	}
 	if nres > 0 {
 		fmt.Fprintf(&src, "\t%s := %s\n", strings.Join(rnames, ", "), call)
@@ -426,6 +342,12 @@ func (e *Engine) replayModel(res *FuncResult, o *Obl, repo, oracleDir, dir strin
 	if hasOracle {
 		fmt.Fprintf(&src, "\tif err := %s(%s); err != nil {\n\t\tt.Fatalf(\"REPLAY-FAIL oracle: %%v\", err)\n\t}\n", oracleName, strings.Join(append(args, rnames...), ", "))
 	}
+	for _, rn := range rnames {
+		fmt.Fprintf(&src, "\tverifRegister(%s)\n", rn)
+	}
+	for _, a := range args {
+		fmt.Fprintf(&src, "\tverifRegister(%s)\n", a)
+	}
 	if nchecked > 0 {
 		src.WriteString("\tvar fails []string\n" + ostmts)
 		src.WriteString("\tif len(fails) > 0 {\n\t\tt.Fatalf(\"REPLAY-FAIL the contract is violated on the real code: %v\", fails)\n\t}\n")
@@ -434,7 +356,9 @@ func (e *Engine) replayModel(res *FuncResult, o *Obl, repo, oracleDir, dir strin
 		fmt.Fprintf(&src, "\t// clause not executable: %s\n", strings.ReplaceAll(sk, "\n", " "))
 	}
 	src.WriteString("}\n")
+	src.WriteString("\nvar verifPanicInconclusive = false\n")
 	src.WriteString(oraclePrelude)
+	src.WriteString(materPrelude)
 	out.Source = src.String()
 	out.Inputs = strings.Join(decl, "\n")
 	// run it
